@@ -15,7 +15,7 @@ CHECKS = {
             "Trusts go test's process isolation and a 10 s watchdog as the definition of 'hang' on inputs of a few KB.",
             "DESIGN.md §4 C08"),
     "C01": ("exploration",
-            "generated-input search (patterns mined from real code, planted instances and single-field near-miss mutants) against an independent reference matcher/rewriter over canonical syntax trees",
+            "generated-input search (patterns mined from real code, planted instances and single-field near-miss mutants, incl. respelled literals and children moved to another optional slot) against an independent reference matcher/rewriter over canonical syntax trees",
             "Thousands (quick) to hundreds of thousands (thorough) of (patch, file) pairs: every reference site must be rewritten and nothing that is not an instance may be; discrepancies are classified and only those contradicting C01 fail this check. Sampling over an unbounded space: exploration.",
             MODEL_NOTE, "DESIGN.md §4 C01"),
     "C02": ("exploration",
@@ -63,7 +63,7 @@ CHECKS = {
             "Comment lines, blank lines, naming, description lines, metavariable renaming / regrouping / reordering, re-spacing, wrapping after commas, joining context lines, context line <-> identical -/+ pair, common tail of a -/+ pair as a context line (also on changes with several elisions on the changed line): base and variant must both be rejected or give syntactically identical results.",
             "Metamorphic relation between two runs of gopatch; the base behaviour itself is judged by C01-C05.", "DESIGN.md §4 C13"),
     "C14": ("exploration",
-            "generated file sets and argument orders (solo vs grouped CLI runs), stateful Apply histories on one parsed patch vs fresh Parse+Apply, and barrier-released concurrent Apply batches in a child process built with -race",
+            "generated file sets and argument orders (solo vs grouped CLI runs), stateful Apply histories on one parsed patch vs fresh Parse+Apply, barrier-released concurrent Apply batches in a child process built with -race, and runs over hundreds of files under a descriptor limit",
             "Per-file results of a grouped run must equal the solo runs (bytes, stdout pieces, descriptions, error texts); every Apply on a shared patch.File must equal a fresh Parse + single Apply; concurrent batches must give the same results and the race detector must stay silent.",
             "The harness does not own the Go scheduler: interleavings are sampled by stress under the race detector, not enumerated. Differential against gopatch itself.", "DESIGN.md §4 C14"),
     "C15": ("exploration",
